@@ -26,10 +26,16 @@ inductive Err
 /-- `while (nupdates > N / 2) nupdates = N / 2;` -/
 def clampUpdates (N nup : Nat) : Nat := if nup > N / 2 then N / 2 else nup
 
+/-- `floor(0.04 * N * N)` is evaluated in `double`: the model takes its value `fl` as an oracle.  Contract: the exact
+    value `⌊N²/25⌋`, or one less when `N²/25` is an integer and the rounded product fell below it (first at
+    `N = 205`: `0.04*205*205 = 1680.9999999999998`). -/
+def defaultItersContract (N fl : Nat) : Bool :=
+  fl == N * N / 25 || (N * N % 25 == 0 && fl + 1 == N * N / 25)
+
 /-- `if (max_iter == 0) { max_iter = 2000 + floor(0.04*N*N); if (!global) max_iter *= 3; }` -/
-def maxIter (N req : Nat) (global : Bool) : Nat :=
+def maxIter (_N req : Nat) (global : Bool) (fl : Nat) : Nat :=
   if req = 0 then
-    let m := 2000 + (4 * N * N) / 100
+    let m := 2000 + fl
     if global then m else m * 3
   else req
 
@@ -283,6 +289,7 @@ structure Input (K : Type) where
   unif : Nat → K
   sqrtO : K → K
   floorO : K → Int
+  fl004 : Nat                      -- the value of `floor(0.04*N*N)` (double arithmetic; `defaultItersContract`)
 
 /-- `floor(uniform_random() * (k - 1))` for the `c`-th draw (`k - 1` is computed in `int`) -/
 def floorPick (inp : Input K) (k : Nat) (c : Nat) : Int :=
@@ -314,7 +321,7 @@ def run (inp : Input K) : Except Err (State K) :=
     match alphaOf inp.global inp.N inp.dist inp.sqrtO with
     | .error e => .error e
     | .ok alpha =>
-      let maxIt := maxIter inp.N inp.maxIterReq inp.global
+      let maxIt := maxIter inp.N inp.maxIterReq inp.global inp.fl004
       loop inp k nup maxIt alpha maxIt 0
         { idx := List.range inp.N, Y := inp.y0, lam := 1, draws := 0, trace := [] }
 
